@@ -174,10 +174,10 @@ type verifC25Ctx struct {
 	cancelled bool
 }
 
-func verifC25NewCtx() *verifC25Ctx                      { return &verifC25Ctx{done: make(chan struct{})} }
-func (c *verifC25Ctx) Deadline() (time.Time, bool)      { return time.Time{}, false }
-func (c *verifC25Ctx) Done() <-chan struct{}            { return c.done }
-func (c *verifC25Ctx) Value(any) any                    { return nil }
+func verifC25NewCtx() *verifC25Ctx                 { return &verifC25Ctx{done: make(chan struct{})} }
+func (c *verifC25Ctx) Deadline() (time.Time, bool) { return time.Time{}, false }
+func (c *verifC25Ctx) Done() <-chan struct{}       { return c.done }
+func (c *verifC25Ctx) Value(any) any               { return nil }
 func (c *verifC25Ctx) Err() error {
 	if c.cancelled {
 		return context.Canceled
